@@ -241,4 +241,16 @@ theorem inheritAttrib_perm {a₁ a₂ : Attrs} (h : a₁.Perm a₂) (nd : (a₁.
   rw [sortedKeys_perm h]
   simp only [applyHandler_congr (get_perm h nd) (has_perm h)]
 
+/-- C16: what an element hands down to its children (`_attrib_to_pass_on`) does not depend on the order in which its own
+    attributes are written, nor on the order in which the context it received stores them -/
+theorem attribToPassOn_perm {cur₁ cur₂ el₁ el₂ : Attrs} (hc : cur₁.Perm cur₂) (he : el₁.Perm el₂)
+    (ndc : (cur₁.map (·.1)).Nodup) (nde : (el₁.map (·.1)).Nodup) :
+    Cascade.attribToPassOn cur₁ el₁ = Cascade.attribToPassOn cur₂ el₂ := by
+  unfold Cascade.attribToPassOn
+  rw [inheritAttrib_perm he nde]
+  congr 1
+  funext a
+  exact inheritAttrib_perm hc ndc _ _ _ _
+
+
 end PicoSVG.Props.C16
